@@ -418,8 +418,37 @@ class Fn:
         if 'ival' in c:
             return ('const', c['ival'])
         if 'uneval' in c:
+            if 'promoted' in c:
+                v = self._promoted_value(c['uneval'], c['promoted'])
+                if v is not None:
+                    return v
             return ('const', 'path:' + c['uneval'] + ('#p%d' % c['promoted'] if 'promoted' in c else ''))
         return ('const', c.get('dbg', '?'))
+
+    def _promoted_value(self, owner, idx):
+        """the value of promoted constant `idx` of function `owner` when its body is a single literal (e.g. `&Enum::Variant`)"""
+        crate = getattr(self.b, 'crate', None)
+        if crate is None:
+            return None
+        pb = crate.body('%s::{promoted#%d}' % (owner, idx))
+        if pb is None or len(pb.blocks) > 4:
+            return None
+        cache = crate.__dict__.setdefault('_promoted_cache', {})
+        if pb.path not in cache:
+            val = None
+            try:
+                f = Fn(pb)
+                rbs = f.return_blocks()
+                if len(rbs) == 1:
+                    ts = f.local_terms(0, (rbs[0], f.nstmts(rbs[0])))
+                    if len(ts) == 1:
+                        n = next(iter(ts))
+                        if n[0] in ('agg', 'const', 'tuple'):
+                            val = n
+            except Exception:
+                val = None
+            cache[pb.path] = val
+        return cache[pb.path]
 
     def op_terms(self, op, point, mut_kills=True):
         if 'const' in op:
